@@ -23,3 +23,34 @@ pub(crate) fn fragment(index: usize, phase: u8) {
         hook(index, phase);
     }
 }
+
+/// The 16 bytes `Compressed::mode<mode>(..)` of the BC7 encoder writes for the
+/// given arguments (see `encode::bc7::verif::write` for the layout of
+/// `endpoints`). The values must fit the bit widths of the mode.
+#[allow(clippy::too_many_arguments)]
+pub fn bc7_write(
+    mode: u8,
+    partition: u8,
+    rotation: u8,
+    index_mode: u8,
+    endpoints: &[u8],
+    p_bits: &[bool],
+    indexes: &[u8],
+    indexes2: &[u8],
+) -> [u8; 16] {
+    crate::encode::bc7_verif::write(
+        mode, partition, rotation, index_mode, endpoints, p_bits, indexes, indexes2,
+    )
+}
+
+/// The index list and error `closest_rgb` (`kind` 0), `closest_rgba` (1) or
+/// `closest_alpha` (2) of the BC7 encoder return.
+pub fn bc7_closest(
+    kind: u8,
+    index_bits: u8,
+    e0: &[u8],
+    e1: &[u8],
+    pixels: &[u8],
+) -> (Vec<u8>, u32) {
+    crate::encode::bc7_verif::closest(kind, index_bits, e0, e1, pixels)
+}
